@@ -308,6 +308,13 @@ func runC19Case(c cfg, seed uint64, stopKind string, addFaults bool, keys map[st
 		vsys.PlanAdd(&vsys.Rule{Call: vsys.CEpollAdd, FD: -1, Class: "dup", Every: 3, Action: vsys.AErrno, Errno: unix.ENOMEM})
 		x.key("register-with-failing-epoll_ctl_add")
 	}
+	if !slowClose && stopKind == "live" {
+		// a ticker whose callbacks take a while: Stop usually meets one in flight, and must wait for it
+		c.Ticker = true
+		mon.slowTick = time.Duration(1+r.Intn(4)) * time.Millisecond
+		mon.h.onTick = func() (time.Duration, gnet.Action) { return 300 * time.Microsecond, gnet.None }
+		x.key("slow-ticker|" + map[bool]string{true: "reuseport", false: "reactor"}[c.ReusePort])
+	}
 	life, err := startServer(c, mon)
 	if err != nil {
 		res.Inconc("c19 %s: engine did not start: %v", c, err)
@@ -426,6 +433,9 @@ func runC19Case(c cfg, seed uint64, stopKind string, addFaults bool, keys map[st
 				}
 				if err := life.eng.Validate(); !errors.Is(err, errorx.ErrEngineInShutdown) {
 					res.Violate("C19 Validate after a successful Stop", fmt.Sprint(err), nil)
+				}
+				if n := mon.inFlight.Load(); n > 0 {
+					res.Violate("C19 Stop returned nil while a callback of the engine was still executing", fmt.Sprintf("%d callbacks in flight (ticker interval/duration %v)", n, mon.slowTick), map[string]any{"config": c.String()})
 				}
 			}
 		case "expired":
